@@ -5,8 +5,9 @@ locals free).  The comparison operators that guard the double -> integer casts a
 json_object_int_inc negates its argument are *consulted by the model* (so `get*_no_fault` /
 `inc_no_fault` stop checking when one of them changes); the remaining facts are asserted by the
 `decide` lemma `src_shape` in Props/C10.lean, so a source change that alters one makes a named
-lemma fail.  A fact that cannot be located any more is emitted as a comment only (the model or
-the lemma then no longer compiles and the obligation is reported by name)."""
+lemma fail.  A model-consulted fact that cannot be located any more keeps its default and turns a
+shape fact (`numCastGuardsFound`, `numIncShape`) false, so `src_shape` is reported by name while the driver
+still builds and the correspondence run can exhibit a concrete failing input."""
 import re
 from structure import strip_c_comments, func_body, read, lit
 
@@ -22,8 +23,13 @@ def norm(s):
 DBL = r"(?:JC_DOUBLE_C\(jso\)->c_double|JC_DOUBLE\(jso\)->c_double|\w+)"
 
 
+FOUND = []
+
+
 def op_fact(out, name, body, pattern, when_true, when_false, comment):
-    """pattern has one group: the comparison operator"""
+    """pattern has one group: the comparison operator.  A guard that cannot be located keeps the value the
+    model was written for (so that the driver still builds and the correspondence run can exhibit a concrete
+    input) and is reported through `numCastGuardsFound`, which `src_shape` asserts."""
     m = re.search(pattern, body)
     v = None
     if m:
@@ -31,11 +37,13 @@ def op_fact(out, name, body, pattern, when_true, when_false, comment):
             v = True
         elif m.group(1) == when_false:
             v = False
-    out.append(lit(name, "Bool", b(v) if v is not None else None, comment))
+    FOUND.append(v is not None)
+    out.append(lit(name, "Bool", b(v if v is not None else True), comment + ("" if v is not None else "  [NOT FOUND: default]")))
 
 
 def facts(repo, cfg):
     out = []
+    del FOUND[:]
     jo = strip_c_comments(read(repo, "json_object.c"))
     ju = strip_c_comments(read(repo, "json_util.c"))
 
@@ -104,8 +112,9 @@ def facts(repo, cfg):
         ok = False
     out.append(lit("numIncShape", "Bool", b(ok) if inc else None,
                    "int_inc: the five guarded branches, in order (int64: overflow up / down; uint64: overflow up / below zero / stays)"))
-    out.append(lit("numIncNegatesUnsigned", "Bool", b(all(n == "-(uint64_t)val" for n in negs)) if (inc and ok) else None,
-                   "int_inc: the magnitude of a negative increment is computed as -(uint64_t)val (true) or by negating the int64 (false)"))
+    out.append(lit("numIncNegatesUnsigned", "Bool", b(all(n == "-(uint64_t)val" for n in negs) if (inc and ok) else True),
+                   "int_inc: the magnitude of a negative increment is computed as -(uint64_t)val (true) or by negating the int64 (false)"
+                   + ("" if (inc and ok) else "  [NOT FOUND: default; numIncShape is false]")))
 
     # ---- json_parse_int64 / json_parse_uint64
     p64 = norm(func_body(ju, "json_parse_int64"))
@@ -118,4 +127,6 @@ def facts(repo, cfg):
                          r"(\w+)=strtoull\(\1,&(\w+),10\);if\(\3!=\1\)\*retval=\2;" + fail, pu))
     out.append(lit("numParseUint64Shape", "Bool", b(oku) if pu else None,
                    "json_parse_uint64: errno = 0; skip isspace; '-' -> EINVAL, 1; strtoull base 10; *retval written iff end != buf; failure test as above"))
+    out.append(lit("numCastGuardsFound", "Bool", b(all(FOUND) and len(FOUND) == 6),
+                   "all six comparison operators guarding the double -> integer casts were located"))
     return "".join(out)
